@@ -11,7 +11,7 @@ use serde_json::{json, Value};
 pub static DEF: PropDef = PropDef {
     id: "C03",
     rule: "exhaustive: every tree with <=5 nodes below the starting point (every parent vector x file/directory labelling, names chosen so that creation order differs from byte order) x every subset of its directories selected for pruning (by -path) x {default order, -depth}; random: trees <=30 nodes x prune predicates by -name/-path/disjunction placed as 'TEST -prune -o ACTION', '( TEST -prune ) , ACTION', 'ACTION TEST -prune', negated and nested forms x -depth/-d x depth bounds x -P/-H/-L. Oracle: exact sequence equality with the reference DFS (byte-wise sibling order via -sorted) + model-independent invariants on the observed sequence (parent before/after child, nothing under a pruned directory, siblings ascending). Non-trivial = a directory with >=1 descendant is pruned and it is neither the first nor the only child of its parent, or -depth is combined with an evaluated -prune. Distinct = distinct case JSON.",
-    assumptions: &["-sorted is always given (the statement defines the order only with it)", "-delete is exercised in C10 (it implies -depth); here -depth/-d are given explicitly"],
+    assumptions: &["the xdev sub-run reads the top level of / and /dev of the machine it runs on (no other mount points are reachable from a sandbox); it is repeated if the listing changes during a run", "-sorted is always given (the statement defines the order only with it)", "-delete is exercised in C10 (it implies -depth); here -depth/-d are given explicitly"],
     run,
     replay,
     fuzz: None,
@@ -428,6 +428,83 @@ fn check_bytes(ctx: &mut Ctx, c: &ByteCase) -> Outcome {
     Pass::new(invalid >= 1 && c.names.len() >= 3).class_if(invalid >= 2, "two-or-more-non-utf8-names").class("byte-order-raw-names").sample(json!({"names": c.names.iter().map(|n| lossy(n)).collect::<Vec<_>>()})).ok()
 }
 
+// ---- -prune on a directory that -xdev/-mount keeps the walk out of -------------------------------
+
+/// The only mount points a sandboxed run can see are those of the system itself: "/" and "/dev" are
+/// walked one level deep, read-only (`Ctx::find_system_readonly`), with -xdev or -mount and a -prune
+/// on one child at a time.
+#[derive(Serialize, Deserialize, Debug, Clone)]
+pub struct XdevCase {
+    pub root: String,
+    /// name of the child -prune is applied to
+    pub name: String,
+    /// 0 "-name N -prune -o -print", 1 "-name N -prune -print -o -print", 2 "( -name N -prune ) , -print"... all under -maxdepth 1
+    pub form: u8,
+    /// 0 -xdev, 1 -mount, 2 neither
+    pub opt: u8,
+}
+
+fn xdev_children(root: &str) -> Vec<String> {
+    use std::os::unix::ffi::OsStrExt;
+    let mut names: Vec<Vec<u8>> = std::fs::read_dir(root).map(|rd| rd.filter_map(|e| e.ok()).map(|e| e.file_name().as_bytes().to_vec()).collect()).unwrap_or_default();
+    names.sort();
+    names.into_iter().filter_map(|n| String::from_utf8(n).ok()).collect()
+}
+
+fn check_xdev(ctx: &mut Ctx, c: &XdevCase) -> Outcome {
+    use std::os::unix::fs::MetadataExt;
+    let children = xdev_children(&c.root);
+    if !children.contains(&c.name) || c.name.contains(|ch: char| "*?[\\".contains(ch)) {
+        return Pass::discard("no such child now");
+    }
+    let join = |n: &str| if c.root.ends_with('/') { format!("{}{n}", c.root) } else { format!("{}/{n}", c.root) };
+    let root_dev = std::fs::metadata(&c.root).map(|m| m.dev()).ok();
+    let target = join(&c.name);
+    let is_dir = std::fs::symlink_metadata(&target).map(|m| m.is_dir()).unwrap_or(false);
+    let other_fs = is_dir && std::fs::metadata(&target).map(|m| Some(m.dev()) != root_dev).unwrap_or(false);
+    let mut want: Vec<String> = vec![c.root.clone()];
+    for n in &children {
+        if c.form == 0 && *n == c.name {
+            continue;
+        }
+        want.push(join(n));
+    }
+    let mut args: Vec<String> = vec![c.root.clone(), "-maxdepth".into(), "1".into()];
+    match c.opt {
+        0 => args.push("-xdev".into()),
+        1 => args.push("-mount".into()),
+        _ => {}
+    }
+    args.push("-sorted".into());
+    match c.form {
+        0 => args.extend(["-name", &c.name, "-prune", "-o", "-print"].iter().map(|x| x.to_string())),
+        _ => args.extend(["-name", &c.name, "-prune", "-print", "-o", "-print"].iter().map(|x| x.to_string())),
+    }
+    let a: Vec<&str> = args.iter().map(|x| x.as_str()).collect();
+    let o = ctx.find_system_readonly(&a);
+    if let Some(p) = o.panic {
+        return fail(format!("C03:panic:{}", p.split(": ").next().unwrap_or("?")), format!("find {args:?}: {p}"));
+    }
+    let got: Vec<String> = o.stdout.split(|b| *b == b'\n').filter(|l| !l.is_empty()).map(lossy).collect();
+    // the listing is taken from a live system directory: compare again if it changed meanwhile
+    if got != want && xdev_children(&c.root) != children {
+        return Pass::discard("the directory changed during the run");
+    }
+    if got != want {
+        let missing: Vec<&String> = want.iter().filter(|w| !got.contains(w)).collect();
+        return fail(
+            format!("C03:prune-on-a-directory-of-another-file-system:{}:{}", ["-xdev", "-mount", "no-option"][c.opt as usize % 3], if missing.is_empty() { "sequence-differs" } else { "later-siblings-lost" }),
+            format!("find {}\n{} is {}a directory on another file system than {}\nexpected {want:?}\nobserved {got:?}\nstderr {:?}", args.join(" "), target, if other_fs { "" } else { "NOT " }, c.root, lossy(&o.stderr)),
+        );
+    }
+    Pass::new(other_fs && c.opt != 2 && children.last() != Some(&c.name))
+        .class("xdev")
+        .class_if(other_fs, "pruned-directory-is-a-mount-point")
+        .class_if(is_dir && !other_fs, "pruned-directory-on-the-same-file-system")
+        .sample(json!({"cmdline": format!("find {}", args.join(" ")), "entries": want.len()}))
+        .ok()
+}
+
 fn run(w: &mut Worker) {
     w.regress::<Case>("prune", check);
     w.regress::<SmallCase>("small", check_small);
@@ -436,6 +513,18 @@ fn run(w: &mut Worker) {
     q.reverse();
     w.exhaustive("small", &format!("all trees with <={n} nodes below the starting point x file/dir labelling x every prune subset x {{pre,post}}"), SmallTrees { queue: q }, check_small);
     w.random("prune", w.tier.pick(60_000, 800_000), (60, 450), 1500, gen_case, check);
+    let mut xd: Vec<XdevCase> = vec![];
+    for root in ["/", "/dev"] {
+        for name in xdev_children(root) {
+            for form in 0..2u8 {
+                for opt in 0..3u8 {
+                    xd.push(XdevCase { root: root.to_string(), name: name.clone(), form, opt });
+                }
+            }
+        }
+    }
+    w.regress::<XdevCase>("xdev", check_xdev);
+    w.exhaustive("xdev", "/ and /dev walked one level deep (read-only) x -prune on each child in turn x {-xdev, -mount, neither} x {pruned entry printed or not}: every other child must still be visited, in order", xd.into_iter(), check_xdev);
     w.regress::<ByteCase>("byteorder", check_bytes);
     w.random("byteorder", w.tier.pick(10_000, 100_000), (20, 60), 500, gen_bytecase, check_bytes);
 }
@@ -444,6 +533,7 @@ fn replay(w: &mut Worker, sub: &str, v: Value) -> Outcome {
     match sub {
         "small" => check_small(&mut w.ctx, &decode(v)),
         "byteorder" => check_bytes(&mut w.ctx, &decode(v)),
+        "xdev" => check_xdev(&mut w.ctx, &decode(v)),
         _ => check(&mut w.ctx, &decode(v)),
     }
 }
